@@ -42,6 +42,8 @@ type Exec struct {
 	paths int
 	retCovers []*Query
 	params map[string]string
+	inlineDepth  int
+	inlinedFuncs []string
 }
 
 func (x *Exec) info() *types.Info { return x.fn.pkg.TypesInfo }
